@@ -63,45 +63,36 @@ def check_atomic_lock(ctx, prog):
     n = 0
     RMW = ('operator+=', 'operator-=', 'operator*=', 'operator/=', 'operator%=', 'operator|=', 'operator&=', 'operator^=', 'operator<<=', 'operator>>=', 'operator++', 'operator--')
     for f in members:
-        refs = [e for e in fn_exprs(f) if e.get('k') == 'mem' and e.get('f') == '_x']
-        if not refs and f.get('n') in RMW and any(e.get('k') == 'call' and (e.get('pq') or '').endswith('Atomic::locked') for e in fn_exprs(f)):
-            # through the guard returned by locked(): the lock is held for the full expression that contains the temporary guard
-            ctx.analysed(f)
-            n += 1
-            escaped = []
-            for s_ in ir.walk_stmts(f['body']):
-                if s_.get('k') == 'decl':
-                    for v in s_['vars']:
-                        if v.get('init') is not None and T(f, v['t']).get('ref') and any(w.get('k') == 'call' and (w.get('pq') or '').endswith('Atomic::locked') for w in walk_expr(v['init'])):
-                            uses = [e for e in fn_exprs(f) if e.get('k') == 'var' and e.get('id') == v['id']]
-                            if uses:
-                                escaped.append((v, uses[0]))
-            ctx.check(not escaped, 'R-LOCK', f['pq'], f['n'] + f['sig'] + ':lock scope', fwhere(f, escaped[0][1].get('l') if escaped else None),
-                      'the value is updated inside the full expression that holds the locked() guard',
-                      '%s binds `%s` to the value behind a temporary locked() guard; the guard is destroyed (mutex released) at the end of that declaration and the later read-modify-write through `%s` runs unlocked: concurrent updates are lost (instantiation %s)'
-                      % (f['pq'], escaped[0][0]['n'] if escaped else '', escaped[0][0]['n'] if escaped else '', f['q']))
-            continue
-        if not refs and f.get('n') in RMW:
+        if f.get('kind') in ('ctor', 'dtor') or not f.get('body'):
+            continue            # not (or no longer) shared
+        acc = lock_regions(f)
+        inst = f['q'] + f['sig']
+        if not acc and f.get('n') in RMW:
             # composed of other (separately locked) members: the read and the write-back are two critical sections
             ctx.analysed(f)
             ctx.violation('R-LOCK', f['pq'], f['n'] + f['sig'] + ':read-modify-write in one critical section', fwhere(f),
                           '%s does not update the value directly under one Lock but through other members (each locking on its own): an update by another thread between the read and the write-back is lost (instantiation %s)' % (f['pq'], f['q']))
             continue
-        if not refs:
+        if not acc:
             continue
-        if f.get('kind') == 'ctor':
-            continue        # not yet shared
-        inst = f['q'] + f['sig']
-        if f.get('n') == 'operator*':
+        if f.get('n') == 'operator*' and not any(e.get('k') == 'call' and (e.get('pq') or '').endswith('Atomic::locked') for e in fn_exprs(f)):
             ctx.ok('R-LOCK', f['pq'], 'operator*' + f['sig'] + ':documented unsynchronised access', fwhere(f), 'documented exception: returns a reference, caller locks', nontrivial=False)
             continue
+        if f.get('n') == 'locked':
+            continue            # hands out the guard itself
         n += 1
         ctx.analysed(f)
-        ctx.evaluations += len(refs)
-        # the body must be a block whose statements before the first _x reference contain `Lock <name>(_mutex)`
-        ok, why = lock_encloses(f, refs)
-        ctx.check(ok, 'R-LOCK', f['pq'], f['n'] + f['sig'] + ':lock scope', fwhere(f), 'Lock on _mutex declared in an enclosing scope before every access to _x',
-                  '%s: %s (instantiation %s)' % (f['pq'], why, f['q']))
+        ctx.evaluations += len(acc)
+        unlocked = [l for l, r in acc if r is None]
+        regions = set(r for l, r in acc if r is not None)
+        if unlocked:
+            ctx.violation('R-LOCK', f['pq'], f['n'] + f['sig'] + ':lock scope', fwhere(f, unlocked[0]),
+                          '%s reads/writes the value at line %d while no guard on the mutex of the object is alive (a guard declared later, in an inner block, or a temporary guard that ended with an earlier full expression): concurrent updates are lost (instantiation %s)' % (f['pq'], unlocked[0], f['q']))
+        elif f.get('n') in RMW and len(regions) > 1:
+            ctx.violation('R-LOCK', f['pq'], f['n'] + f['sig'] + ':read-modify-write in one critical section', fwhere(f),
+                          '%s reads and writes the value under %d separate lock acquisitions: an update by another thread in between is lost (instantiation %s)' % (f['pq'], len(regions), f['q']))
+        else:
+            ctx.ok('R-LOCK', f['pq'], f['n'] + f['sig'] + ':lock scope', fwhere(f), 'every access to the value lies in the lifetime of one guard on the mutex (%d access(es))' % len(acc))
     ctx.floor('R-LOCK Atomic members', n, 40)
     # Lock and Locked pair lock()/unlock()
     for cls, field in (('asl::Lock', '_m'), ('asl::Locked', 'x')):
@@ -117,6 +108,80 @@ def check_atomic_lock(ctx, prog):
             calls = [e.get('pq') for e in fn_exprs(f) if e.get('k') == 'call']
             ctx.check(calls.count('asl::Mutex::unlock') == 1 and 'asl::Mutex::lock' not in calls, 'R-LOCK', f['pq'], 'dtor:unlocks once', fwhere(f),
                       'destructor unlocks exactly once', '%s destructor does not unlock the mutex exactly once' % cls)
+
+
+def lock_regions(f):
+    """Where a member of Atomic<T> touches the protected value and which lock covers it.  A *named* guard - a local of type
+    Lock constructed from the object's mutex, or Locked<T> constructed from the object - holds the mutex from its declaration
+    to the end of its block; a *temporary* guard (the result of locked(), a Lock / Locked temporary) holds it to the end of the
+    full expression.  The value is touched through `_x`, through `*guard` / `*locked()`, and through a reference local bound
+    to one of these.  -> (accesses: [(line, region id or None)], notes); region None = no lock held at that access."""
+    GUARDS = ('asl::Lock', 'asl::Locked')
+    accesses = []
+    aliases = {}        # reference local -> True: refers to the protected value
+
+    def gtype(t):
+        tt = T(f, t)
+        return tt.get('recp') in GUARDS or (tt.get('rec') or '').split('<')[0] in GUARDS
+
+    def is_guard_var(e):
+        e = strip_lv(e)
+        return e.get('k') == 'var' and gtype(e.get('dt') or e.get('t'))
+
+    def temp_guard(e):
+        # a guard object created inside this full expression
+        for x in walk_expr(e):
+            if x.get('k') == 'call' and (x.get('pq') or '').endswith('Atomic::locked'):
+                return True
+            if x.get('k') in ('construct', 'temp') and gtype(x.get('t')) and x.get('k') == 'construct':
+                return True
+        return False
+
+    def touches(e):
+        for x in walk_expr(e):
+            if x.get('k') == 'mem' and x.get('f') == '_x' and strip_lv(x.get('b') or {'k': 'this'}).get('k') == 'this':
+                yield x
+            elif x.get('k') == 'call' and x.get('op') == '*' and x.get('obj') is not None and (is_guard_var(x['obj']) or temp_guard(x['obj'])):
+                yield x
+            elif x.get('k') == 'call' and (x.get('pq') or '').endswith('::operator*') and x.get('obj') is not None and (is_guard_var(x['obj']) or temp_guard(x['obj'])):
+                yield x
+            elif x.get('k') == 'var' and x.get('id') in aliases:
+                yield x
+
+    def full_expr(e, named, stmt_id):
+        region = named if named is not None else (('tmp', stmt_id) if temp_guard(e) else None)
+        for x in touches(e):
+            accesses.append((x.get('l', 0), region))
+
+    def visit(s, named):
+        if not isinstance(s, dict):
+            return named
+        k = s.get('k')
+        if k == 'block':
+            cur = named
+            for x in s['s']:
+                cur = visit(x, cur)
+            return named
+        if k == 'decl':
+            cur = named
+            for v in s['vars']:
+                ini = v.get('init')
+                if gtype(v['t']):
+                    if ini is not None and any(m.get('k') == 'mem' and m.get('f') == '_mutex' for m in walk_expr(ini)) or (ini is not None and any(m.get('k') == 'this' for m in walk_expr(ini))):
+                        cur = ('named', v['id'])
+                    continue
+                if ini is not None:
+                    full_expr(ini, cur, id(s))
+                    if T(f, v['t']).get('ref') and any(True for _ in touches(ini)):
+                        aliases[v['id']] = True
+            return cur
+        for e in ir.stmt_own_exprs(s):
+            full_expr(e, named, id(e))
+        for c in ir.stmt_children(s):
+            visit(c, named)
+        return named
+    visit(f['body'], None)
+    return accesses
 
 
 def lock_encloses(f, refs):
